@@ -2,6 +2,22 @@ const { getSourcePathAndLineFromSourceMaps } = require('../source-map')
 
 const kSymbolPrepareStackTrace = Symbol('_ddiastPrepareStackTrace')
 
+// the position of the `eval()` call inside `eval at fn (file:line:column)`
+const EVAL_ORIGIN_REGEX = /.*\(((?:.:[/\\]?)?[/\\].*):(\d*):(\d*)\)/
+
+// an eval origin (or a text that contains one) with the position of the eval call translated
+function translateEvalOrigin (evalOrigin, text = evalOrigin) {
+  if (typeof evalOrigin !== 'string' || typeof text !== 'string') return text
+  const evalData = EVAL_ORIGIN_REGEX.exec(evalOrigin)
+  if (!evalData) return text
+  const [, filename, originalLine, originalColumn] = evalData
+  const { path, line, column } = getSourcePathAndLineFromSourceMaps(filename, originalLine, originalColumn)
+  if (path !== filename || line !== originalLine || column !== originalColumn) {
+    return text.replace(`${filename}:${originalLine}:${originalColumn}`, () => `${path}:${line}:${column}`)
+  }
+  return text
+}
+
 class WrappedCallSite {
   constructor (callSite) {
     const { path, line, column } = getSourcePathAndLineFromSourceMaps(
@@ -52,7 +68,7 @@ class WrappedCallSite {
   }
 
   getEvalOrigin () {
-    return this.callSite.getEvalOrigin()
+    return translateEvalOrigin(this.callSite.getEvalOrigin())
   }
 
   isToplevel () {
@@ -120,7 +136,9 @@ class WrappedCallSite {
   // the textual form of the call site carries the position too
   translatePosition (text) {
     const position = `${this.callSite.getFileName()}:${this.callSite.getLineNumber()}:${this.callSite.getColumnNumber()}`
-    return text.replace(position, () => `${this.source}:${this.lineNumber}:${this.columnNumber}`)
+    text = text.replace(position, () => `${this.source}:${this.lineNumber}:${this.columnNumber}`)
+    // the frame of eval code shows where eval was called
+    return this.callSite.isEval() ? translateEvalOrigin(this.callSite.getEvalOrigin(), text) : text
   }
 }
 
